@@ -118,13 +118,13 @@ class SimLoop(asyncio.BaseEventLoop):
         self.iterations = 0
         self.quiescent = False
         self.capped = False
-        self.set_task_factory(self._task_factory)
+        self.set_task_factory(self._det_task_factory)
         self._clock_resolution = 1e-9
 
     # -- determinism helpers ------------------------------------------------
 
     @staticmethod
-    def _task_factory(loop, coro, **kwargs):
+    def _det_task_factory(loop, coro, **kwargs):
         return _DetTask(coro, loop=loop, **kwargs)
 
     def create_future(self):
